@@ -56,6 +56,9 @@ func genDHCPHistory(t *rapid.T) dhcpHistory {
 		case "request":
 			op.Kind = rapid.SampledFrom([]string{"sel-ours", "sel-ours", "sel-ours", "sel-other", "renew", "rebind", "reboot"}).Draw(t, "kind")
 			op.Req = rapid.SampledFrom(dReqClasses).Draw(t, "req")
+			if op.Kind != "sel-ours" && op.Kind != "sel-other" && rapid.IntRange(0, 2).Draw(t, "ownLease") != 0 {
+				op.Req = "current" // renew / rebind / reboot of the client's own lease: the common case
+			}
 			op.XID = rapid.SampledFrom([]int{0, 0, 0, 1, 2}).Draw(t, "xid")
 			op.Name, op.PRL, op.Bcast = rapid.IntRange(0, 2).Draw(t, "name"), rapid.IntRange(0, 4).Draw(t, "prl"), rapid.Bool().Draw(t, "bcast")
 			op.Spoof = rapid.IntRange(0, 19).Draw(t, "spoof") == 0
@@ -69,6 +72,11 @@ func genDHCPHistory(t *rapid.T) dhcpHistory {
 			op.Req = rapid.SampledFrom([]string{"free", "free", "other", "current"}).Draw(t, "req")
 		}
 		h.Ops = append(h.Ops, op)
+		// a complete handshake is the common continuation of a DISCOVER
+		if op.K == "discover" && !op.Spoof && rapid.IntRange(0, 2).Draw(t, "handshake") == 0 {
+			h.Ops = append(h.Ops, dOp{K: "request", C: op.C, Kind: "sel-ours", Req: "offered", PRL: op.PRL, Name: op.Name})
+			i++
+		}
 	}
 	return h
 }
